@@ -66,7 +66,7 @@ package core
 //@ pred lexValOK(f *fs.File, b bytes.Index, e bytes.Index) := f != nil && b <= e + 1 && e + 1 <= len(f.content.data)
 //@ pred coreScanInv(core *JApiCore) := core != nil && core.scanner != nil && scanner.scannerInv(core.scanner)
 //@     && core.scannersStack != nil && scanner.stackInv(core.scannersStack)
-//@     && imp(core.currentDirective != nil, directive.dirOK(core.currentDirective))
+//@     && imp(core.currentDirective != nil, directive.dirOK(core.currentDirective) && core.currentDirective.Parent == nil)
 
 //@ func (*JApiCore).japiError(core, msg, i)
 //@   property C07,C01
@@ -113,15 +113,41 @@ package core
 //@ modset treeMod(core) := core.currentContextDirective, core.currentDirective, core.directives, core.directives[:],
 //@     allfield(directive.Directive, Parent), allfield(directive.Directive, Children), allelems(*directive.Directive)
 
+// skippedAll(a, c, t): every context from a (inclusive) up to c (exclusive) along the Parent chain is implicit and does not
+// admit a directive of kind t - i.e. exactly the contexts that may "close silently". Abstract predicate; its two
+// axioms are its inductive definition (reflexive; one more implicit, non-admitting context may be skipped).
+//@ opaque pred skippedAll(a int, c int, t int)
+//@ pred methodWithPath(d *directive.Directive) := directive.isHTTPMethod(d.type_) && d.namedParameters != nil
+//@     && has(d.namedParameters, "Path") && d.namedParameters["Path"] != ""
+//@ pred ctxStop(core *JApiCore, d *directive.Directive, w *directive.Directive, attachedTo *directive.Directive, toRoot bool, failed bool) :=
+//@     ite(w == nil, ite(directive.rootSpec(d.type_), toRoot && !failed, failed),
+//@     ite(directive.allowedSpec(w.type_, d.type_),
+//@         ite(methodWithPath(d) && w.type_ == directive.URL, ite(w.HasExplicitContext, failed, toRoot && !failed),
+//@             !failed && !toRoot && attachedTo == w),
+//@         failed && w.HasExplicitContext))
+
 //@ func (*JApiCore).processContext(core, d, root)
 //@   property C01,C11
-//@   requires core != nil && directive.dirOK(d) && root != nil
+//@   requires core != nil && directive.dirOK(d) && root != nil && d.Parent == nil
+//@   axiom forallp(a, skippedAll(a, a, d.type_), skippedAll(a, a, d.type_))
+//@   axiom forallp(a, c, skippedAll(a, c, d.type_), imp(skippedAll(a, c, d.type_) && c != 0
+//@       && !(*directive.Directive)(c).HasExplicitContext && !directive.allowedSpec((*directive.Directive)(c).type_, d.type_),
+//@       skippedAll(a, (*directive.Directive)(c).Parent, d.type_)))
 //@   modifies core.currentContextDirective, *root, allfield(directive.Directive, Parent), allfield(directive.Directive, Children), allelems(*directive.Directive)
 //@   ensures imp(result == nil, core.currentContextDirective == d)
+//@   ensures[C11,@context-resolution] exists(w, skippedAll(old(core.currentContextDirective), w, d.type_)
+//@       && ctxStop(core, d, (*directive.Directive)(w), d.Parent, result == nil && d.Parent == nil, result != nil))
+//@   ensures[C11,C03,C07,@context-error-at] imp(result != nil, result.File == d.keywordCoords.file && result.Index == d.keywordCoords.begin
+//@       && d.Parent == nil)
+//@   ensures[C11] imp(result == nil && d.Parent != nil, len(d.Parent.Children) >= 1 && d.Parent.Children[len(d.Parent.Children)-1] == d)
+//@   ensures[C11] imp(result == nil && d.Parent == nil, len(*root) == old(len(*root)) + 1 && (*root)[len(*root)-1] == d)
+//@ func (*JApiCore).processContext loop 1
+//@   invariant skippedAll(old(core.currentContextDirective), core.currentContextDirective, d.type_)
+//@   invariant d.Parent == nil && len(*root) == old(len(*root))
 
 //@ func (*JApiCore).processCurrentDirective(core)
 //@   property C01
-//@   requires core != nil && imp(core.currentDirective != nil, directive.dirOK(core.currentDirective))
+//@   requires core != nil && imp(core.currentDirective != nil, directive.dirOK(core.currentDirective) && core.currentDirective.Parent == nil)
 //@   modifies treeMod(core)
 //@   ensures imp(result == nil, core.currentDirective == nil)
 //@   ensures imp(result != nil, core.currentDirective == old(core.currentDirective))
